@@ -713,6 +713,98 @@ func emitVerify(x *hxlib.Ctx, kind string, c *bctx, height int64, vals [][]byte,
 	x.Emit(cs)
 }
 
+// ---- several VerifyBlock calls on ONE decoded list object, each with its own block ----
+
+type blockRef struct {
+	H   int64  `json:"height"`
+	BID string `json:"bid_hex"`
+}
+type verifySeqIn struct {
+	T      string     `json:"t"`
+	Vals   []string   `json:"validators_hex"`
+	CVL    string     `json:"commit_vote_list_hex"`
+	Blocks []blockRef `json:"blocks"` // one call per entry, in order
+	What   string     `json:"what,omitempty"`
+}
+
+func runVerifySeq(vals [][]byte, cvl []byte, hs []int64, bids [][]byte) (bool, []verdict) {
+	cvs := consensus.NewCommitVoteSetFromBytes(cvl)
+	if cvs == nil {
+		return false, nil
+	}
+	vl := validatorList(vals)
+	var vs []verdict
+	for k := range hs {
+		v := verdict{Decoded: true}
+		v.Panic = hxlib.Catch(func() {
+			voted, err := cvs.VerifyBlock(&stubBlock{h: hs[k], id: bids[k]}, vl)
+			v.Accepted = err == nil
+			v.Voted = voted
+		})
+		vs = append(vs, v)
+	}
+	return true, vs
+}
+
+func oracleVerifySeq(vals [][]byte, cvl []byte, hs []int64, bids [][]byte, vs []verdict) string {
+	for k, v := range vs {
+		if msg := oracleVerify(hs[k], bids[k], vals, false, cvl, v); msg != "" {
+			return fmt.Sprintf("call %d of %d on one commit vote list object: %s", k+1, len(vs), msg)
+		}
+	}
+	return ""
+}
+
+func emitVerifySeq(x *hxlib.Ctx, kind string, c *bctx, items []item, hs []int64, bids [][]byte) {
+	cvl := encodeList(c.r, c.ps, items)
+	ok, vs := runVerifySeq(c.valAddrs(), cvl, hs, bids)
+	if !ok {
+		return
+	}
+	in := verifySeqIn{T: "verifyseq", CVL: hex.EncodeToString(cvl), What: kind}
+	for _, a := range c.valAddrs() {
+		in.Vals = append(in.Vals, hex.EncodeToString(a))
+	}
+	for k := range hs {
+		in.Blocks = append(in.Blocks, blockRef{hs[k], hex.EncodeToString(bids[k])})
+	}
+	cs := hxlib.Case{Kind: kind, Input: in, Nontrivial: len(items) > 0, OracleErr: oracleVerifySeq(c.valAddrs(), cvl, hs, bids, vs)}
+	if !x.OracleOnly {
+		var cl []string
+		for k := range hs {
+			bid := coqHexBytes(bids[k])
+			if bytes.Equal(bids[k], c.bid) {
+				bid = "b"
+			}
+			cl = append(cl, fmt.Sprintf("Cl %s %s %s", zlit(hs[k]), bid, vs[k].coq()))
+		}
+		cs.Coq = fmt.Sprintf("(let b := %s in let p := %s in CVerifySeq %s p (Some %s) %s %s)", coqHexBytes(c.bid), coqPS(c.ps),
+			zlit(int64(c.r)), coqKeys(c.vals), coqItems(items, coqEnv{c.bid, c.ps}), hxlib.CoqList(cl))
+	}
+	x.Emit(cs)
+}
+
+func replayVerifySeq(in verifySeqIn) string {
+	cvl, _ := hex.DecodeString(in.CVL)
+	vals := [][]byte{}
+	for _, s := range in.Vals {
+		b, _ := hex.DecodeString(s)
+		vals = append(vals, b)
+	}
+	var hs []int64
+	var bids [][]byte
+	for _, b := range in.Blocks {
+		id, _ := hex.DecodeString(b.BID)
+		hs = append(hs, b.H)
+		bids = append(bids, id)
+	}
+	ok, vs := runVerifySeq(vals, cvl, hs, bids)
+	if !ok {
+		return ""
+	}
+	return oracleVerifySeq(vals, cvl, hs, bids, vs)
+}
+
 func coqItems(items []item, env coqEnv) string {
 	its := make([]string, len(items))
 	for i, it := range items {
@@ -845,6 +937,21 @@ func gen(x *hxlib.Ctx) {
 				// presented under c's header (round / part set of c), for c's block
 				emitVerify(x, "all-valid-for-other-block", c, c.h, c.valAddrs(), c.vals, false, items)
 			}
+			// one list object verified against several blocks in a row
+			{
+				f := 2 * n / 3
+				ob := flipBit(c.bid, r, 0, len(c.bid))
+				oh := c.h + 1
+				for _, k := range []int{f, f + 1, n} {
+					if k > n {
+						continue
+					}
+					emitVerifySeq(x, "verifyseq/right-other-right/"+rel(k, f), c, baseList(r, c, k),
+						[]int64{c.h, c.h, oh, c.h}, [][]byte{c.bid, ob, c.bid, c.bid})
+					emitVerifySeq(x, "verifyseq/other-right/"+rel(k, f), c, baseList(r, c, k),
+						[]int64{oh, c.h, c.h}, [][]byte{c.bid, ob, c.bid})
+				}
+			}
 			// no designated validator set
 			full := baseList(r, c, n)
 			emitVerify(x, "height0/empty", c, 0, c.valAddrs(), c.vals, false, nil)
@@ -873,6 +980,7 @@ func gen(x *hxlib.Ctx) {
 		x.Emit(hxlib.Case{Kind: "canary", Canary: true, Coq: coqVerify(c, c.h, c.vals, false, items[:2], "(OAccept [true; true; false; false])")})
 		x.Emit(hxlib.Case{Kind: "canary", Canary: true, Coq: "(CEnough 2 3 true)"})
 		x.Emit(hxlib.Case{Kind: "canary", Canary: true, Coq: "(CChain 1 0 [] None [1] [] true)"})
+		x.Emit(hxlib.Case{Kind: "canary", Canary: true, Coq: "(CVerifySeq 0 None (Some [1]) [] [Cl 1 [] OReject; Cl 2 [] (OAccept [false])])"})
 		x.Emit(hxlib.Case{Kind: "canary", Canary: true, Coq: "(CFastSync 1 0 [] None (1, []) [1] [] true)"})
 	}
 }
@@ -961,6 +1069,12 @@ func replay(raw json.RawMessage) string {
 			return "bad replay input: " + err.Error()
 		}
 		return replayVerify(in)
+	case "verifyseq":
+		var in verifySeqIn
+		if err := json.Unmarshal(raw, &in); err != nil {
+			return "bad replay input: " + err.Error()
+		}
+		return replayVerifySeq(in)
 	case "enough":
 		var in struct{ Voted, Voters int }
 		json.Unmarshal(raw, &in)
@@ -984,7 +1098,7 @@ func replay(raw json.RawMessage) string {
 func main() {
 	hxlib.Main(hxlib.Spec{
 		ID: "C05",
-		Rule: "validator sets of n=1..10 real secp256k1 keys in random order; for every n lists of k distinct valid precommit signatures for k in {0,1,f-1,f,f+1,f+2,n-1,n}, f=floor(2n/3), alone and with ONE more item added or one item replaced by: a foreign key's signature, a validator's signature over another round/height/block id/part-set hash/count/app data/nil-ness/vote type/timestamp, a bit-flipped r/s/v, an empty/zero/V-less/bad-V signature, a verbatim duplicate, a second signature of a signer (all kinds at k=f and k=f+1, a sample elsewhere); signatures made both by the harness's own encoding and by the implementation's vote constructor; height 0, nil and empty validator lists; the same lists through BlockManager.Propose and Import on a fixture chain, and through the consensus engine's fast-sync entry (ReceiveBlockResult -> processBlock) on a syncing node; enoughVote on a grid. non-trivial = non-empty list against a non-empty validator set at height>0; distinct = distinct Coq case term",
+		Rule: "validator sets of n=1..10 real secp256k1 keys in random order; for every n lists of k distinct valid precommit signatures for k in {0,1,f-1,f,f+1,f+2,n-1,n}, f=floor(2n/3), alone and with ONE more item added or one item replaced by: a foreign key's signature, a validator's signature over another round/height/block id/part-set hash/count/app data/nil-ness/vote type/timestamp, a bit-flipped r/s/v, an empty/zero/V-less/bad-V signature, a verbatim duplicate, a second signature of a signer (all kinds at k=f and k=f+1, a sample elsewhere); signatures made both by the harness's own encoding and by the implementation's vote constructor; height 0, nil and empty validator lists; one decoded list object verified against several blocks in a row (right/other id/other height/right, every call judged on its own); the same lists through BlockManager.Propose and Import on a fixture chain, and through the consensus engine's fast-sync entry (ReceiveBlockResult -> processBlock) on a syncing node; enoughVote on a grid. non-trivial = non-empty list against a non-empty validator set at height>0; distinct = distinct Coq case term",
 		Gen:  gen, Replay: replay,
 	})
 }
